@@ -47,6 +47,8 @@ func strs() [][]byte {
 		o = append(o, []byte{h}, []byte{'a', h, 'b'})
 	}
 	o = append(o, []byte(`x\"y`), []byte("\\\\"), bytes.Repeat([]byte{'x'}, 255), bytes.Repeat([]byte{'\\'}, 255), []byte("123"), []byte(`\123`))
+	// letter case is content in every character-string (CAA tags, NAPTR flags, HINFO, TXT …)
+	o = append(o, []byte("MiXeD"), []byte("UPPER"))
 	return o
 }
 
